@@ -11,11 +11,14 @@ RULE = ("pool of programs with near-twins (pairs differing in one literal / oper
         "evaluations in random order (each pair several times), kept ASTs re-executed on fresh equal contexts, parse-only steps bracketed by context "
         "snapshots, and the same on 2-16 threads with separate contexts; every outcome (result, final bindings, expr(), AST) is compared with the alone run. "
         "distinct class = (program id, position bucket in history, sequential | threaded | kept-AST | parse-only)")
-WORDS = ["wplus", "wjoin", "wneg", "wpost", "minov", "sumov", "wjoin_left", "wplus_right"]
+WORDS = ["wplus", "wjoin", "wneg", "wpost", "minov", "sumov", "wjoin_left", "wplus_right", "wshl"]
 REG = {
     "wplus": {"op": "reg_infix", "name": "wplus", "prec": 110, "type": "CALC", "assoc": "LEFT", "beh": {"id": 501, "ret": "tag"}},
     "wjoin": {"op": "reg_infix", "name": "wjoin", "prec": 30, "type": "CALC", "assoc": "RIGHT", "beh": {"id": 502, "ret": "tag"}},
     "wneg": {"op": "reg_prefix", "name": "wneg", "beh": {"id": 503, "ret": "tag"}},
+    # a four-character symbolic operator all of whose proper prefixes (< << <<=) are built-ins: it must lex as one token however many
+    # programs were tokenized before it was registered (C16u)
+    "wshl": {"op": "reg_infix", "name": "<<==", "prec": 110, "type": "CALC", "assoc": "LEFT", "beh": {"id": 513, "ret": "tag"}},
     "wpost": {"op": "reg_postfix", "name": "wpost", "beh": {"id": 504, "ret": "tag"}},
     # the same operators once more with the same precedence and the OTHER associativity (whichever registration comes last counts)
     "wjoin_left": {"op": "reg_infix", "name": "wjoin", "prec": 30, "type": "CALC", "assoc": "LEFT", "beh": {"id": 512, "ret": "tag"}},
@@ -48,7 +51,7 @@ def make_pool(rnd, n):
         else:
             w = rnd.choice(WORDS)
             w = {"wjoin_left": "wjoin", "wplus_right": "wplus"}.get(w, w)
-            text = {"wplus": "6 wplus 4 wplus 2 * 2", "wjoin": "a wjoin 2 wjoin 3", "wneg": "wneg 3 + 1", "wpost": "7 wpost", "minov": "min(3, 4)", "sumov": "[sum(1, 2), nosuchfunction(1)]"}[w]
+            text = {"wplus": "6 wplus 4 wplus 2 * 2", "wjoin": "a wjoin 2 wjoin 3", "wneg": "wneg 3 + 1", "wpost": "7 wpost", "wshl": "7 <<== 5 <<== 2 + 1", "minov": "min(3, 4)", "sumov": "[sum(1, 2), nosuchfunction(1)]"}[w]
             if rnd.random() < 0.25:
                 text = rnd.choice(["nosuchfunction(1)", "max(1, nosuch2())", "min(2, 1) + sum(1)", "mul(2, 3) ; undefined_fn()"])
             if rnd.random() < 0.5:
